@@ -181,6 +181,10 @@ fn deadline() -> Instant {
         None => Instant::now() + std::time::Duration::from_secs(86400),
     }
 }
+/// true once the engine's wall-clock cap is exceeded (checked inside long loops)
+pub fn time_up() -> bool {
+    Instant::now() > deadline()
+}
 pub fn elapsed() -> f64 {
     let g = START.lock().unwrap();
     g.map(|(t, _)| t.elapsed().as_secs_f64()).unwrap_or(0.0)
